@@ -5,6 +5,7 @@
   R3 SDL / DDL printer field coverage (C01.R1/R2 per language)
   R4 a single path from schema to text
   R5 stored expressions are normalised before they are printed
+  R6 SDL output is order-independent input (C11's rules)
 """
 from __future__ import annotations
 
@@ -146,6 +147,36 @@ def run(repo: Repo, ctx) -> None:
                        f'nor handles child field(s) {sorted(bad)} of {cn}',
                        h.loc, sample=f'children={sorted(child)}')
 
+    # ---- R2b: alias scoping ---------------------------------------------------
+    # A WITH alias (or a result / iterator alias) is visible to later
+    # clauses, never to its own definition: the definition is normalised
+    # before the alias joins localnames.
+    from ..cfg import CFG as _CFG
+    for fname_ in ('_normalize_with_block', '_normalize_aliased_field'):
+        nf = repo.func(f'{NORM}.{fname_}')
+        ctx.saw(nf)
+        g_ = _CFG(nf.node)
+        ext = [n.id for n in g_.nodes if n.kind == 'stmt' and isinstance(
+            n.ast, ast.Assign) and norm(n.ast.targets[0]) == 'localnames'
+            and isinstance(n.ast.value, ast.BinOp)
+            and 'localnames' in norm(n.ast.value)]
+        ncalls = [n.id for n in g_.nodes if any(
+            call_name(c) == 'normalize' for c in g_.node_calls(n))]
+        heads = [n.id for n in g_.nodes if n.kind == 'for']
+        if not ext or not ncalls:
+            raise AnalysisError(f'C03.R2: alias scoping sites of {fname_} '
+                                f'not found')
+        bad = [e for e in ext
+               if set(ncalls) & g_.reachable([e], avoid=heads)]
+        ctx.ob('C03.R2', f'{fname_}:definition-before-alias', not bad,
+               f'{fname_} adds the alias to localnames before normalising '
+               f'the expression that defines it: a reference inside the '
+               f'definition to a schema object of the same name (with User '
+               f':= (select User ...)) stays unqualified in the stored '
+               f'text, so DESCRIBE output resolves it against the replaying '
+               f'session\'s module', nf.loc,
+               sample='normalize(definition) ; localnames |= {alias}')
+
     # ---- R3 -----------------------------------------------------------------
     for lang, mods in (('sdl', ['edb.edgeql.parser.grammar.sdl',
                                 'edb.edgeql.parser.grammar.commondl']),
@@ -153,7 +184,7 @@ def run(repo: Repo, ctx) -> None:
                                 'edb.edgeql.parser.grammar.commondl'])):
         sub = _Sub(ctx, f'C03.R3{lang}')
         c01.run(repo, sub, grammar_modules=mods, rule_prefix=f'C03.R3{lang}',
-                only_rules={'R1', 'R2'})
+                only_rules={'R1', 'R2'} | ({'R7'} if lang == 'ddl' else set()))
 
     # ---- R4 -----------------------------------------------------------------
     ctx.floor('C03.R4', 3)
@@ -239,6 +270,9 @@ def run(repo: Repo, ctx) -> None:
                    f'(normalisation)', f'{m.rel()}:{c.lineno}',
                    sample='literal / copied text', nontrivial=False)
 
+    # ---- R6 -------------------------------------------------------------------
+    _sdl_order(repo, ctx)
+
 
 TEXT_OK = {
     'edb.schema.reflection.reader._parse_expression':
@@ -297,6 +331,13 @@ def _reach(repo: Repo, m) -> Dict[str, Set[str]]:
                     stack.append(y)
         out[name] = seen
     return out
+
+
+def _sdl_order(repo: Repo, ctx) -> None:
+    """DESCRIBE SCHEMA AS SDL is valid input only if sdl_to_ddl orders the
+    declarations by their dependencies: C11's rules, under C03.R6."""
+    from . import c11
+    c11.run(repo, _Sub(ctx, 'C03.R6'))
 
 
 class _Sub:
